@@ -52,6 +52,9 @@ func New() *Match {
 func (m *Match) AddQuery(query []string, client Client) (remove func()) {
 	defer m.mu.Unlock()
 	m.mu.Lock()
+	// The remove function must not depend on the caller leaving query intact
+	// (callers build several queries in one backing array).
+	query = append([]string(nil), query...)
 	m.tree.addQuery(query, client)
 	return func() {
 		defer m.mu.Unlock()
